@@ -6,3 +6,13 @@
 package conversions
 
 //@ structural conversions-bigfloat-ops: callees conversions@conversions.BigFloatToPBigDecimalFloat|conversions.BigFloatToString into math/big: (*Float).Text (*Float).Prec
+
+// Arguments of big-number type are only read (C18): no function of the two encoder packages
+// stores through a pointer to an apd.Decimal, big.Int or big.Float (a field write such as
+// value.Exponent = 0 would change the caller's number without calling any method).
+//@ structural cbe-no-stores-into-decimal: no_stores_into github.com/cockroachdb/apd/v2.Decimal in cbe
+//@ structural cte-no-stores-into-decimal: no_stores_into github.com/cockroachdb/apd/v2.Decimal in cte
+//@ structural cbe-no-stores-into-bigint: no_stores_into math/big.Int in cbe
+//@ structural cte-no-stores-into-bigint: no_stores_into math/big.Int in cte
+//@ structural cbe-no-stores-into-bigfloat: no_stores_into math/big.Float in cbe
+//@ structural cte-no-stores-into-bigfloat: no_stores_into math/big.Float in cte
